@@ -162,6 +162,14 @@ Proof.
 Qed.
 Print Assumptions C19_layout_strides.
 
+(* the strides of shapes WITH a zero extent (no multi-index exists, so C19_layout_strides says nothing about them):
+   stride(r) is the closed form whenever that closed form is representable *)
+Theorem C19_layout_stride_values : forall l t e r, wf_ity t -> (r < rank e)%nat ->
+  0 <= spec_stride l (extents_list t e) r <= imax t ->
+  lay_stride l t e r = Ok (spec_stride l (extents_list t e) r).
+Proof. exact lay_stride_value. Qed.
+Print Assumptions C19_layout_stride_values.
+
 Theorem C19_stride_contract : forall l t e r, lay_stride l t e r = Contract <-> (rank e <= r)%nat.
 Proof. exact lay_stride_contract. Qed.
 Print Assumptions C19_stride_contract.
@@ -303,6 +311,13 @@ Theorem C19_transpose_stride : forall l t ne, wf_ity t -> rank ne = 2%nat ->
 Proof. exact tr_stride_spec. Qed.
 Print Assumptions C19_transpose_stride.
 
+Theorem C19_transpose_stride_values : forall l t ne, wf_ity t -> rank ne = 2%nat ->
+  0 <= spec_stride l (extents_list t ne) 0 <= imax t -> 0 <= spec_stride l (extents_list t ne) 1 <= imax t ->
+  tr_stride l t ne 0 = Ok (spec_stride l (extents_list t ne) 1)
+  /\ tr_stride l t ne 1 = Ok (spec_stride l (extents_list t ne) 0).
+Proof. exact tr_stride_value. Qed.
+Print Assumptions C19_transpose_stride_values.
+
 (** * mdspan / mdarray element access, conversions, submdspan_extents *)
 (* the element referenced is data[closed form], inside [0, size()); an mdarray's container has
    exactly size() elements *)
@@ -413,16 +428,22 @@ Theorem C19_span_last : forall (A : Type) (buf : list A) s c, sp_valid buf s -> 
 Proof. exact sp_last_d_spec. Qed.
 Print Assumptions C19_span_last.
 
-(* compile-time forms first<C>() / last<C>() / subspan<O, C>() incl. the static extent of the result *)
-Theorem C19_span_first_static : forall (A : Type) (buf : list A) s c, sp_valid buf s -> 0 <= c <= s_size s ->
-  sp_elems buf (sp_first_s s c) = sub_range (sp_elems buf s) 0 c
-  /\ s_size (sp_first_s s c) = c /\ s_ext (sp_first_s s c) = Some c /\ sp_within (sp_first_s s c) s.
+(* compile-time forms first<C>() / last<C>() / subspan<O, C>() incl. the static extent of the result; on a span of
+   dynamic extent the count is checked at run time (TETL_PRECONDITIONs added by the review's fix commit): the
+   precondition fires exactly outside [span.sub]'s domain *)
+Theorem C19_span_first_static : forall (A : Type) (buf : list A) s c, sp_valid buf s -> 0 <= c ->
+  (c <= s_size s ->
+   exists r, sp_first_s s c = Ok r /\ sp_elems buf r = sub_range (sp_elems buf s) 0 c
+             /\ s_size r = c /\ s_ext r = Some c /\ sp_within r s)
+  /\ (s_size s < c -> sp_first_s s c = Contract).
 Proof. exact sp_first_s_spec. Qed.
 Print Assumptions C19_span_first_static.
 
-Theorem C19_span_last_static : forall (A : Type) (buf : list A) s c, sp_valid buf s -> 0 <= c <= s_size s ->
-  sp_elems buf (sp_last_s s c) = sub_range (sp_elems buf s) (s_size s - c) c
-  /\ s_size (sp_last_s s c) = c /\ s_ext (sp_last_s s c) = Some c /\ sp_within (sp_last_s s c) s.
+Theorem C19_span_last_static : forall (A : Type) (buf : list A) s c, sp_valid buf s -> 0 <= c ->
+  (c <= s_size s ->
+   exists r, sp_last_s s c = Ok r /\ sp_elems buf r = sub_range (sp_elems buf s) (s_size s - c) c
+             /\ s_size r = c /\ s_ext r = Some c /\ sp_within r s)
+  /\ (s_size s < c -> sp_last_s s c = Contract).
 Proof. exact sp_last_s_spec. Qed.
 Print Assumptions C19_span_last_static.
 
@@ -430,8 +451,8 @@ Theorem C19_span_subspan_static : forall (A : Type) (buf : list A) s o c,
   sp_valid buf s -> sp_consistent s -> 0 <= o <= s_size s ->
   match c with Some n => 0 <= n <= s_size s - o | None => True end ->
   let cnt := match c with Some n => n | None => s_size s - o end in
-  let r := sp_sub_s s o c in
-  sp_elems buf r = sub_range (sp_elems buf s) o cnt /\ s_size r = cnt /\ sp_within r s
+  exists r, sp_sub_s s o c = Ok r
+  /\ sp_elems buf r = sub_range (sp_elems buf s) o cnt /\ s_size r = cnt /\ sp_within r s
   /\ s_ext r = match c with
                | Some n => Some n
                | None => match s_ext s with Some x => Some (x - o) | None => None end
@@ -440,10 +461,23 @@ Theorem C19_span_subspan_static : forall (A : Type) (buf : list A) s o c,
 Proof. exact sp_sub_s_spec. Qed.
 Print Assumptions C19_span_subspan_static.
 
+Theorem C19_span_subspan_static_contract : forall s o c, 0 <= s_size s < 18446744073709551616 -> 0 <= o ->
+  (sp_sub_s s o c = Contract <->
+   ~ (o <= s_size s /\ match c with Some n => n <= s_size s - o | None => True end)).
+Proof. exact sp_sub_s_contract. Qed.
+Print Assumptions C19_span_subspan_static_contract.
+
 Theorem C19_span_index : forall s i, 0 <= i ->
   (i < s_size s -> sp_index s i = Ok (s_off s + i)) /\ (s_size s <= i -> sp_index s i = Contract).
 Proof. exact sp_index_spec. Qed.
 Print Assumptions C19_span_index.
+
+Theorem C19_span_front_back : forall s, 0 <= s_size s ->
+  (sp_front s = Contract <-> s_size s = 0) /\ (sp_back s = Contract <-> s_size s = 0)
+  /\ (0 < s_size s -> sp_front s = sp_index s 0 /\ sp_back s = sp_index s (s_size s - 1)
+                      /\ sp_front s = Ok (s_off s) /\ sp_back s = Ok (s_off s + s_size s - 1)).
+Proof. exact sp_front_back_spec. Qed.
+Print Assumptions C19_span_front_back.
 
 (* "the equivalent pointer arithmetic on the original range": first(c) is subspan(0, c) (contract included),
    last(c) is subspan(size() - c, c), a subspan of a subspan is the subspan at the sum of the offsets, and the
@@ -468,9 +502,21 @@ Print Assumptions C19_span_subspan_compose.
 
 Theorem C19_span_static_dynamic_agree : forall s o c, size_ok s -> sp_consistent s -> 0 <= o <= s_size s ->
   match c with Some n => 0 <= n <= s_size s - o | None => True end ->
-  exists r, sp_sub_d s o c = Ok r /\ s_off r = s_off (sp_sub_s s o c) /\ s_size r = s_size (sp_sub_s s o c).
+  exists r r', sp_sub_d s o c = Ok r /\ sp_sub_s s o c = Ok r' /\ s_off r = s_off r' /\ s_size r = s_size r'.
 Proof. exact sp_static_dynamic_agree. Qed.
 Print Assumptions C19_span_static_dynamic_agree.
+
+(* for EVERY offset and count, inside or outside the domain: subspan<O, C>() and subspan(O, C) either both fire
+   their precondition or both return the same window (the static form with the static extent of [span.sub]) *)
+Theorem C19_span_static_dynamic_same_outcome : forall s o c,
+  match sp_sub_d s o c, sp_sub_s s o c with
+  | Ok r, Ok r' => s_off r = s_off r' /\ (sp_consistent s -> s_size r = s_size r') /\ s_ext r = None
+                   /\ s_ext r' = subspan_extent o c (s_ext s)
+  | Contract, Contract => True
+  | _, _ => False
+  end.
+Proof. exact sp_static_dynamic_same_outcome. Qed.
+Print Assumptions C19_span_static_dynamic_same_outcome.
 
 (* as_bytes / as_writable_bytes: for every element size and every object representation [repr] of that size the
    byte view starts at byte offset data()*sizeof(T), has size()*sizeof(T) bytes, static extent sizeof(T)*N, and
